@@ -7,7 +7,7 @@
                     pandas returned. *)
 From Coq Require Import List Bool Arith ZArith QArith String.
 Import ListNotations.
-From DA Require Import Base.PyRT Base.Cases Base.Val Model.Sem Model.SemCases Model.PdPrim Model.PandasExec.
+From DA Require Import Base.PyRT Base.Cases Base.Val Model.Sem Model.SemCases Model.PdPrim Model.PandasExec Model.PermGuard.
 Local Open Scope list_scope.
 
 Definition table_same (m o : table) : bool := eqb (cols m) (cols o) && rows_close (rows m) (rows o).
@@ -103,3 +103,18 @@ Definition check_syntax (cs : list (list (string * list string) * list (string *
 
 (* the premise of the theorems, evaluated on the pipelines the real builder accepted *)
 Definition check_wf (cs : list pcase) : list nat := failing_idx (fun c => wf_op_b (pc_pipeline c)) cs.
+
+(* instances of PEXEC_refines_sem_checked on the real cases: where the premises hold and the transcription returns a frame, that
+   frame equals sem_gen fl_pandas up to column and row order (cells with the suite's tolerance).  A failure here would contradict
+   the theorem (it cannot happen while Props/PEXEC.v checks); the count of guarded cases shows the premises are not vacuous. *)
+Definition guarded (c : pcase) : bool := wf_op_b (pc_pipeline c) && perm_guard_b fl_pandas (pc_pipeline c) (pc_tables c).
+Definition instance_ok (c : pcase) : bool :=
+  if guarded c
+  then match pexec (pc_quirks c) (pc_pipeline c) (pc_tables c), sem_gen fl_pandas (pc_pipeline c) (pc_tables c) with
+       | Some a, Some b => table_close false a b
+       | None, _ => true
+       | Some _, None => false
+       end
+  else true.
+Definition check_instances (cs : list pcase) : list nat := failing_idx instance_ok cs.
+Definition check_unguarded (cs : list pcase) : list nat := failing_idx guarded cs.
